@@ -13,6 +13,7 @@ import (
 	"github.com/wundergraph/graphql-go-tools/v2/pkg/astprinter"
 	"github.com/wundergraph/graphql-go-tools/v2/pkg/astvalidation"
 	"github.com/wundergraph/graphql-go-tools/v2/pkg/graphqlerrors"
+	"github.com/wundergraph/graphql-go-tools/v2/pkg/operationreport"
 )
 
 type admission struct {
@@ -20,6 +21,8 @@ type admission struct {
 	Stage    string // "", normalize1, validate, normalize2, panic
 	Message  string // first error message
 	Norm1    string // printed document after the first normalisation ("" if it failed)
+	Norm1Sexp string // the same document as an S-expression
+	Overlap  string // verdict of the FieldSelectionMerging rule run ALONE on that document: t, f, panic
 	Final    string
 	req      *graphql.Request
 }
@@ -56,6 +59,8 @@ func admit(schema *graphql.Schema, query, opName, variables string, stopAfterNor
 	if s, e := astprinter.PrintString(req.Document()); e == nil {
 		res.Norm1 = s
 	}
+	res.Norm1Sexp = dumpDocument(req.Document())
+	res.Overlap = overlapAlone(req, schema)
 	if stopAfterNorm1 {
 		res.Accepted = true
 		return
@@ -90,3 +95,19 @@ func firstMsg(err error, errs graphqlerrors.Errors) string {
 }
 
 func oneLine(s string) string { return strings.Join(strings.Fields(s), " ") }
+
+// overlapAlone runs only the FieldSelectionMerging rule on the (normalised) document of the request.
+func overlapAlone(req *graphql.Request, schema *graphql.Schema) (verdict string) {
+	defer func() {
+		if r := recover(); r != nil {
+			verdict = "panic"
+		}
+	}()
+	v := astvalidation.NewOperationValidator([]astvalidation.Rule{astvalidation.FieldSelectionMerging()})
+	var report operationreport.Report
+	v.Validate(req.Document(), schema.Document(), &report)
+	if report.HasErrors() {
+		return "f"
+	}
+	return "t"
+}
